@@ -342,6 +342,7 @@ func (m *machine) registerIntrinsics() {
 	in["fmt.Errorf"] = func(fr *frame, fn *ssa.Function, args []value) value {
 		format := args[0]
 		va, _ := args[1].([]value)
+		fr.i.fmtFr = fr
 		msg := fr.i.sprintf(format, va)
 		if fs, ok := format.(string); ok && strings.Contains(fs, "%w") {
 			for _, a := range va {
@@ -355,11 +356,13 @@ func (m *machine) registerIntrinsics() {
 	}
 	sprintf := func(fr *frame, fn *ssa.Function, args []value) value {
 		va, _ := args[1].([]value)
+		fr.i.fmtFr = fr
 		return fr.i.sprintf(args[0], va)
 	}
 	in["fmt.Sprintf"] = sprintf
 	in["fmt.Sprint"] = func(fr *frame, fn *ssa.Function, args []value) value {
 		va, _ := args[0].([]value)
+		fr.i.fmtFr = fr
 		var parts []value
 		for _, a := range va {
 			parts = append(parts, strBytes(fr.i.fmtArg(a, 'v'))...)
@@ -381,6 +384,34 @@ func (m *machine) registerIntrinsics() {
 		return fr.i.errorsIs(fr, args[0].(iface), args[1].(iface))
 	}
 	in["github.com/pkg/errors.Is"] = in["errors.Is"]
+	in["errors.As"] = func(fr *frame, fn *ssa.Function, args []value) value {
+		i := fr.i
+		err := args[0].(iface)
+		tgt := args[1].(iface)
+		if tgt.t == nil {
+			fr.tpanic("errors: target cannot be nil")
+		}
+		pt, ok := tgt.t.Underlying().(*types.Pointer)
+		if !ok {
+			fr.tpanic("errors: target must be a non-nil pointer")
+		}
+		cell := tgt.v.(*value)
+		want := pt.Elem()
+		for depth := 0; depth < 64 && err.t != nil; depth++ {
+			if types.AssignableTo(err.t, want) {
+				if types.IsInterface(want) {
+					*cell = err
+				} else {
+					*cell = err.v
+				}
+				return true
+			}
+			next := i.unwrapErr(fr, err).(iface)
+			err = next
+		}
+		return false
+	}
+	in["github.com/pkg/errors.As"] = in["errors.As"]
 	in["errors.Unwrap"] = func(fr *frame, fn *ssa.Function, args []value) value {
 		return fr.i.unwrapErr(fr, args[0].(iface))
 	}
@@ -407,10 +438,17 @@ func (m *machine) registerIntrinsics() {
 		i.timers = append(i.timers, &timer{at: i.now + d, ch: c, tt: fn.Signature.Results().At(0).Type()})
 		return c
 	}
-	in["time.Now"] = noop
-	in["time.Since"] = noop
-	in["(time.Time).Unix"] = noop
-	in["(time.Time).UnixNano"] = noop
+	// virtual clock: time.Now is the interpreter's virtual time (it advances only when a
+	// timer fires); the Time value is built directly (wall = nanoseconds, ext = seconds
+	// since year 1, no monotonic reading, UTC), its methods are interpreted from source
+	in["time.Now"] = func(fr *frame, fn *ssa.Function, args []value) value {
+		t := zeroResult(fn).(structure)
+		const unixToInternal = 62135596800
+		now := fr.i.now
+		t[0] = uint64(now % 1000000000)
+		t[1] = int64(unixToInternal + 1700000000 + now/1000000000)
+		return t
+	}
 	in["time.Sleep"] = func(fr *frame, fn *ssa.Function, args []value) value {
 		fr.i.yield(fr)
 		return nil
@@ -574,18 +612,45 @@ func (i *interpreter) fmtArg(a value, verb byte) value {
 		if it.t == nil {
 			return "<nil>"
 		}
-		a = it.v
 		if verb == 's' || verb == 'v' || verb == 'w' || verb == 'q' {
 			if implementsError(it.t) {
+				// the error's own text, computed by its real Error method
+				if i.fmtFr != nil && i.fmtDepth < 8 {
+					i.fmtDepth++
+					r, ok := i.callMethod(i.fmtFr, it, "Error")
+					i.fmtDepth--
+					if ok {
+						switch r.(type) {
+						case string, sstr:
+							return r
+						}
+					}
+				}
 				return "<error>"
 			}
 		}
+		a = it.v
 	}
 	switch x := a.(type) {
 	case string:
+		if verb == 'q' {
+			return strconv.Quote(x)
+		}
 		return x
 	case sstr:
 		return x
+	case structure:
+		if verb == 'v' {
+			out := []value{uint8('{')}
+			for k, e := range x {
+				if k > 0 {
+					out = append(out, uint8(' '))
+				}
+				out = append(out, strBytes(i.fmtArg(e, 'v'))...)
+			}
+			out = append(out, uint8('}'))
+			return mkstr(out)
+		}
 	case bool:
 		return strconv.FormatBool(x)
 	case int, int8, int16, int32, int64:
@@ -613,6 +678,17 @@ func (i *interpreter) fmtArg(a value, verb byte) value {
 			if allBytes {
 				return mkstr(x)
 			}
+		}
+		if verb == 'v' || verb == 'q' || verb == 'd' || verb == 's' {
+			out := []value{uint8('[')}
+			for k, e := range x {
+				if k > 0 {
+					out = append(out, uint8(' '))
+				}
+				out = append(out, strBytes(i.fmtArg(e, verb))...)
+			}
+			out = append(out, uint8(']'))
+			return mkstr(out)
 		}
 	}
 	return "<val>"
